@@ -61,6 +61,10 @@ func (r *Rand) Fork(label string) *Rand {
 type Case struct {
 	Header string   // e.g. "comp=queue block=2"
 	Ops    []string // e.g. "enq 3"
+	// NoModel: run on the implementation and judge by the oracle only; the case is not handed to the Lean Model
+	// (for sizes at which the executable Model, written for proofs and not for speed, would dominate the run time).
+	// Counted apart in the statistics ("oracle_only_cases"); use sparingly and say so in the Rule text.
+	NoModel bool
 }
 
 // Result is what executing a case on the implementation produced.
@@ -246,16 +250,21 @@ func (r *Run) Do(component string, c Case, exec Exec) Result {
 			r.hung = true
 		}
 	}
-	fmt.Fprintf(r.ops, "# case %d %s\n", r.n, c.Header)
-	fmt.Fprintf(r.impl, "# case %d\n", r.n)
-	for i, op := range c.Ops {
-		if i >= len(res.Outs) {
-			break // the executor stopped the case (panic/hang): later ops are not part of it
+	if c.NoModel {
+		n, _ := r.Stats.Extra["oracle_only_cases"].(int)
+		r.Stats.Extra["oracle_only_cases"] = n + 1
+	} else {
+		fmt.Fprintf(r.ops, "# case %d %s\n", r.n, c.Header)
+		fmt.Fprintf(r.impl, "# case %d\n", r.n)
+		for i, op := range c.Ops {
+			if i >= len(res.Outs) {
+				break // the executor stopped the case (panic/hang): later ops are not part of it
+			}
+			r.ops.WriteString(op)
+			r.ops.WriteByte('\n')
+			r.impl.WriteString(res.Outs[i])
+			r.impl.WriteByte('\n')
 		}
-		r.ops.WriteString(op)
-		r.ops.WriteByte('\n')
-		r.impl.WriteString(res.Outs[i])
-		r.impl.WriteByte('\n')
 	}
 	r.Stats.Evaluations++
 	r.Stats.Ops += len(res.Outs)
